@@ -85,7 +85,11 @@ func (b *payPerInterval) OnUpdate(node store.Node, peers []store.Node) (store.Ba
 
 	total := new(big.Int)
 	for _, peer := range peers {
-		b.Store.AddNodeBalance(peer.ID, credit)
+		if err := b.Store.AddNodeBalance(peer.ID, credit); err != nil {
+			// The peer could not be credited (e.g. it is no longer registered),
+			// so the client must not be billed for it.
+			continue
+		}
 		total.Add(total, credit)
 	}
 
